@@ -82,24 +82,6 @@ theorem C04_values_legal (st : St) (h0 h : HMap) (hw : addHeader .fixed st h0 = 
 
 /-! ## round trip -/
 
-/-- the three status headers removed — what `from_header_map` keeps as metadata -/
-def stripStatus (h : HMap) : HMap :=
-  HMap.remove GRPC_STATUS_DETAILS (HMap.remove GRPC_MESSAGE (HMap.remove GRPC_STATUS h))
-
-private theorem getAll_stripStatus (k : Bytes) (h : HMap) :
-    HMap.getAll k (stripStatus h) =
-      if k = GRPC_STATUS ∨ k = GRPC_MESSAGE ∨ k = GRPC_STATUS_DETAILS then [] else HMap.getAll k h := by
-  unfold stripStatus
-  by_cases k3 : k = GRPC_STATUS_DETAILS
-  · subst k3; simp [HMap.getAll_remove_self]
-  · rw [HMap.getAll_remove_ne _ _ _ k3]
-    by_cases k2 : k = GRPC_MESSAGE
-    · subst k2; simp [HMap.getAll_remove_self]
-    · rw [HMap.getAll_remove_ne _ _ _ k2]
-      by_cases k1 : k = GRPC_STATUS
-      · subst k1; simp [HMap.getAll_remove_self]
-      · rw [HMap.getAll_remove_ne _ _ _ k1]; simp [k1, k2, k3]
-
 /-- **Round trip.** For every status — any of the 17 codes, any valid-UTF-8 message (controls,
 `%`, non-ASCII, empty), any details byte string, any metadata — written into any block `h0`
 that does not already hold a message or details header (`[]` for trailers, `[content-type]`
